@@ -70,6 +70,9 @@ def gen_cases(ctx):
         add("forget", 0, ns=1)
         for v in prune_variants(th):
             add("prune", v, crash=(v in (1, 16)), ns=(None if v in (0, 1, 5) else 1))
+        # recovery prune after an interrupted prune (duplicate blobs in old and new packs)
+        for v in ((64, 65, 72, 64, 65, 96) if not th else (64, 65, 68, 69, 72, 73, 96, 97, 64, 65)):
+            add("prune", v, ns=1)
         add("config", 0, ns=1); add("key", 0, ns=1); add("key", 1, ns=1)
     return cases
 
